@@ -365,3 +365,8 @@ CLAIM = {
 # SESSION7 additions to the claim (clauses added in DESIGN section 12)
 CLAIM['technique'] += '; digest-intact typestate (nothing writes the finalised digest before the comparison, except the nothing-stored case); static inventory restricted to the read path'
 CLAIM['text'] += ' C02-f (extended): the buffer returned by hash_finalize() reaches the comparison unmodified. C02-j: no function on the read path writes an object with static storage.'
+
+
+# SESSION7b additions to the claim (round 8, DESIGN 12.6)
+CLAIM['technique'] += '; no-forward-seek on unzck; bit-field widths of the digest size'
+CLAIM['text'] += ' C02-k: unzck never steps over bytes it was given. C02-l: a digest size kept in a bit-field fits it.'
